@@ -105,7 +105,7 @@ def type_cells():
 
 
 def search(skip_known=True):
-    hit = submodule_cases() or extends_cases()
+    hit = submodule_cases() or extends_cases() or same_name_cases()
     if hit:
         return hit
     for cell in cells():
@@ -182,6 +182,33 @@ def spelling_cases():
     if bad:
         return {"confirmed": True, "input": {"source": text}, "actual": {k: v[0] for k, v in bad.items()}, "expected": {k: v[1] for k, v in bad.items()},
                 "how": "real parser; access statements naming generic identifiers with different blank placement; PROTECTED combined with PUBLIC"}
+    return None
+
+
+def same_name_cases():
+    """an access statement names an identifier: every entity that goes by it gets the accessibility - a generic and a specific procedure of the same name, a generic declared in two
+    interface blocks - and a generic identifier is found whatever the letter case and the blanks of `OPERATOR (..)` / `Assignment(=)` in the INTERFACE statement"""
+    text = ("module m\n  implicit none\n  private\n  public :: foo, gen, OPERATOR (+)\n  interface foo\n    module procedure foo, foo2\n  end interface foo\n"
+            "  interface gen\n    module procedure g1\n  end interface gen\n  interface gen\n    module procedure g2\n  end interface gen\n"
+            "  INTERFACE OPERATOR (+)\n    module procedure plus_impl\n  END INTERFACE\n  Interface Operator (.dot.)\n    module procedure plus_impl\n  end interface\n"
+            "contains\n  subroutine foo(a)\n    integer :: a\n  end subroutine foo\n  subroutine foo2(a)\n    real :: a\n  end subroutine foo2\n"
+            "  subroutine g1(a)\n    integer :: a\n  end subroutine g1\n  subroutine g2(a)\n    real :: a\n  end subroutine g2\n"
+            "  function plus_impl(a, b) result(r)\n    logical, intent(in) :: a, b\n    logical :: r\n    r = a .or. b\n  end function plus_impl\nend module m\n")
+    m = realrun.parse_source(text).modules[0]
+    got = {f"interface {i.name.lower().replace(' ', '')} #{k}": i.permission for k, i in enumerate(m.interfaces)}
+    got.update({f"subroutine {p.name}": p.permission for p in m.subroutines})
+    want = {"interface foo #0": "public", "interface gen #1": "public", "interface gen #2": "public", "interface operator(+) #3": "public", "interface operator(.dot.) #4": "private",
+            "subroutine foo": "public", "subroutine foo2": "private", "subroutine g1": "private", "subroutine g2": "private"}
+    text2 = ("module n\n  implicit none\n  private :: operator(.dot.), assignment(=)\n  INTERFACE OPERATOR (.dot.)\n    module procedure d\n  END INTERFACE\n"
+             "  Interface Assignment (=)\n    module procedure a\n  end interface\n  interface operator (.cross.)\n    module procedure d\n  end interface\n"
+             "contains\n  function d(x, y) result(r)\n    logical, intent(in) :: x, y\n    logical :: r\n    r = x\n  end function d\n"
+             "  subroutine a(l, r)\n    integer, intent(out) :: l\n    logical, intent(in) :: r\n    l = 1\n  end subroutine a\nend module n\n")
+    n = realrun.parse_source(text2).modules[0]
+    got2 = {i.name.lower().replace(" ", ""): i.permission for i in n.interfaces}
+    want2 = {"operator(.dot.)": "private", "assignment(=)": "private", "operator(.cross.)": "public"}
+    if got != want or got2 != want2:
+        return {"confirmed": True, "input": {"source": text if got != want else text2}, "actual": got if got != want else got2, "expected": want if got != want else want2,
+                "how": "real parser: accessibility of the entities that share the name an access statement lists; generic identifiers spelt in upper / mixed case with blanks"}
     return None
 
 
